@@ -2109,7 +2109,7 @@ func (app *App) performChangeMaster(host, master string) error {
 			app.logger.Warn().Msgf("changemaster: failed to get slave status on host %s: %v", host, err)
 			continue
 		}
-		if sstatus.ReplicationRunning() {
+		if sstatus != nil && sstatus.ReplicationRunning() {
 			break
 		}
 		app.logger.Warn().Msgf("changemaster: replication on host %s is not running yet, waiting...", host)
